@@ -142,6 +142,21 @@ theorem udata_roundtrip (e : Endian) (v size : Nat) (bs rest : Bytes)
     bs.length = size ∧ readFixed e size (bs ++ rest) = .ok (v, rest) :=
   writeUdata_roundtrip e v size bs rest h hv
 
+/-- `write_sdata`: sizes 1/2/4 accept exactly the signed range of that size (no truncation, no
+wrap-around), size 8 accepts every `i64`, other sizes are errors -/
+theorem sdata_fits (e : Endian) (val : Int) (size : Nat)
+    (hlo : -(2 : Int) ^ 63 ≤ val) (hhi : val < 2 ^ 63) :
+    (∃ bs, writeSdata e val size = .ok bs) ↔
+      (size = 1 ∨ size = 2 ∨ size = 4 ∨ size = 8) ∧
+        -(2 : Int) ^ (8 * size - 1) ≤ val ∧ val < 2 ^ (8 * size - 1) :=
+  writeSdata_ok_iff e val size hlo hhi
+
+/-- `read_uint(n)` for every `n` in 0..8 and both byte orders: exact consumption, positional value -/
+theorem uint_exact (e : Endian) (n : Nat) (bs : Bytes) (hn : n ≤ 8) :
+    readUint e n bs =
+      if n ≤ bs.length then .ok (fromBytes e (bs.take n), bs.drop n) else .err .rUnexpectedEof :=
+  readUint_eq e n bs hn
+
 /-! ## initial lengths, addresses -/
 
 /-- `read_initial_length`, all cases: `< 0xffff_fff0` → (value, 32-bit) consuming 4 bytes;
